@@ -1,5 +1,7 @@
 package sched
 
+import "fmt"
+
 // Explorer: stateless depth-first enumeration of choice sequences with iterative deviation
 // bounding.  A deviation is (a) switching away from a thread that could have continued
 // (preemption), (b) firing a timer while a program thread could run, or (c) a non-default answer of
@@ -14,6 +16,10 @@ type Explorer struct {
 	Body     func()
 	// Check is called after every execution; returning false stops the exploration.
 	Check func(r Result) bool
+
+	// VerifyEvery > 0: every VerifyEvery-th execution (and every failing one) is run a second time
+	// with the same choices; a different observation log or choice trace is an engine error (panic).
+	VerifyEvery int64
 
 	Execs      int64
 	Points     int64
@@ -48,6 +54,12 @@ func (e *Explorer) explore(prefix []int, used int) bool {
 	}
 	r := Run(prefix, e.MaxSteps, false, e.Body)
 	e.Execs++
+	if e.VerifyEvery > 0 && (e.Execs%e.VerifyEvery == 1 || r.Failure != "") {
+		r2 := Run(r.Choices, e.MaxSteps, false, e.Body)
+		if r2.Failure != r.Failure || !sameInts(r2.Choices, r.Choices) || !sameStrs(r2.Log, r.Log) {
+			panic(fmt.Sprintf("ENGINE-ERROR: replay of schedule %v is not deterministic:\n first: %q %v\n second: %q %v", r.Choices, r.Failure, r.Log, r2.Failure, r2.Log))
+		}
+	}
 	e.Points += int64(len(r.Choices))
 	if r.Threads > e.MaxThreads {
 		e.MaxThreads = r.Threads
@@ -70,6 +82,30 @@ func (e *Explorer) explore(prefix []int, used int) bool {
 			if !e.explore(np, used+c) {
 				return false
 			}
+		}
+	}
+	return true
+}
+
+func sameInts(a, b []int) bool {
+	if len(a) != len(b) {
+		return false
+	}
+	for i := range a {
+		if a[i] != b[i] {
+			return false
+		}
+	}
+	return true
+}
+
+func sameStrs(a, b []string) bool {
+	if len(a) != len(b) {
+		return false
+	}
+	for i := range a {
+		if a[i] != b[i] {
+			return false
 		}
 	}
 	return true
